@@ -637,11 +637,29 @@ func checkC17(c *Ctx) {
 				n++
 				key := fmt.Sprintf("ByClientID call #%d in %s", n, c.fname(f))
 				ok := false
+				pairOK := func(x, y ssa.Value) bool {
+					a, ok1 := core.Strip(x).(*ssa.Call)
+					b, ok2 := core.Strip(y).(*ssa.Call)
+					return ok1 && ok2 && core.CallOf(a).Is(mp) && core.CallOf(b).Is(cid) && core.Strip(a.Call.Args[0]) == core.Strip(b.Call.Args[0])
+				}
 				if len(cl.Args()) >= 2 {
-					a, ok1 := core.Strip(cl.Arg(0)).(*ssa.Call)
-					b, ok2 := core.Strip(cl.Arg(1)).(*ssa.Call)
-					if ok1 && ok2 && core.CallOf(a).Is(mp) && core.CallOf(b).Is(cid) && core.Strip(a.Call.Args[0]) == core.Strip(b.Call.Args[0]) {
-						ok = true
+					ok = pairOK(cl.Arg(0), cl.Arg(1))
+					if !ok {
+						// inside a helper that receives both (releaseClientID(metadatas, mountPoint, clientID)): judged at
+						// every call site of the helper
+						pa, isPa := core.Strip(cl.Arg(0)).(*ssa.Parameter)
+						pb, isPb := core.Strip(cl.Arg(1)).(*ssa.Parameter)
+						if isPa && isPb && pa.Parent() == pb.Parent() {
+							ia, ib := paramIdx(pa), paramIdx(pb)
+							sites := c.P.StaticCallers(pa.Parent())
+							ok = len(sites) > 0
+							for _, site := range sites {
+								args := site.Common().Args
+								if ia >= len(args) || ib >= len(args) || !pairOK(args[ia], args[ib]) {
+									ok = false
+								}
+							}
+						}
 					}
 				}
 				ru3.Check(ok, key, c.whereI(cl.Instr), "ByClientID(s.MountPoint(), s.ClientID())", "the client id is resolved without the asking session's mount point: a session of another tenant with the same client id is found (and displaced, or answered for)")
@@ -650,7 +668,33 @@ func checkC17(c *Ctx) {
 		impl := c.implOf(ru3, "wasp/distributed", "SessionMetadatasState", "ByClientID")
 		if impl != nil {
 			fields := map[string]bool{}
-			reach := c.P.Reach([]*ssa.Function{impl}, func(from *ssa.Function, cl *core.Call, to *ssa.Function) bool { return hasAncestor(to, impl) })
+			// the predicate may be a literal of the look-up itself, or one built by a constructor of the package that the
+			// look-up calls with its own arguments (sessionOfClient(mountPoint, clientID))
+			ctors := map[*ssa.Function]bool{}
+			for _, cl := range core.CallsIn(impl) {
+				if g := cl.Static; g != nil && g.Package() == impl.Package() && g.Signature.Recv() == nil && len(g.AnonFuncs) > 0 {
+					if _, returnsFunc := g.Signature.Results().At(0).Type().Underlying().(*types.Signature); g.Signature.Results().Len() == 1 && returnsFunc {
+						ctors[g] = true
+					}
+				}
+			}
+			reach := c.P.Reach([]*ssa.Function{impl}, func(from *ssa.Function, cl *core.Call, to *ssa.Function) bool {
+				if hasAncestor(to, impl) || ctors[to] {
+					return true
+				}
+				for g := range ctors {
+					if hasAncestor(to, g) {
+						return true
+					}
+				}
+				return false
+			})
+			for g := range ctors {
+				// Reach follows calls; the literals a constructor returns are not called from it
+				for _, af := range g.AnonFuncs {
+					reach[af] = true
+				}
+			}
 			for g := range reach {
 				for _, b := range g.Blocks {
 					for _, in := range b.Instrs {
